@@ -382,19 +382,17 @@ void h_idx(void) {
   in_e = XV_E; in_ki = nondet_uint(); in_kj = nondet_uint();
   unsigned ki = in_ki, kj = in_kj;
   XV_ASSUME(ki < XV_E && kj < XV_E);
-  unsigned a_push, b_push, a_pop, b_pop, a_dt, b_dt;
+  unsigned a_push, b_push, a_pop, a_dt;
   /* the statements / expression of the header, applied to the counter values of the two tickets (variables named as in the header) */
   { unsigned XV_PUSH_SLOT_VAR = ki * step_size; XV_PUSH_SLOT_STMT; a_push = XV_PUSH_SLOT_VAR; }
   { unsigned XV_PUSH_SLOT_VAR = kj * step_size; XV_PUSH_SLOT_STMT; b_push = XV_PUSH_SLOT_VAR; }
   { unsigned XV_POP_SLOT_VAR = ki * step_size; XV_POP_SLOT_STMT; a_pop = XV_POP_SLOT_VAR; }
-  { unsigned XV_POP_SLOT_VAR = kj * step_size; XV_POP_SLOT_STMT; b_pop = XV_POP_SLOT_VAR; }
   { unsigned XV_DTOR_SLOT_VAR = ki * step_size; a_dt = XV_DTOR_SLOT_EXPR; }
-  { unsigned XV_DTOR_SLOT_VAR = kj * step_size; b_dt = XV_DTOR_SLOT_EXPR; }
   XV_OBL("ram.idx.injective", a_push < XV_E && a_pop < XV_E && a_dt < XV_E);
   XV_OBL("ram.idx.injective", a_push == a_pop && a_push == a_dt);            /* producer, consumer and destructor agree on the entry of a ticket */
   XV_OBL("ram.idx.injective", a_push == (ki * XV_STEP) % XV_E);               /* and it is the map the other harnesses use as specification */
   if (ki != kj) {
-    XV_OBL("ram.idx.injective", a_push != b_push && a_pop != b_pop && a_dt != b_dt);
+    XV_OBL("ram.idx.injective", a_push != b_push);      /* (pop and ~node use the same entry for every ticket, see above: ki is arbitrary) */
 #if XV_E > 1
     XV_CANARY("idx.distinct");
 #endif
